@@ -100,7 +100,7 @@ class DG:
             lambda: "(money %d %d)" % (p(), p()), lambda: "(vector)", lambda: "(vector %d)" % p(),
             lambda: "(custom %s)" % hexs(r.choice(["citext", "my type", 'T"y', "geometry(Point, 4326)"] if self.hostile
                                                   else ["citext", "geometry", "tsvector"])),
-            lambda: "(enum %s%s)" % (hexs(r.choice(["mood", 'fo"nt', "sch.ty"] if self.hostile else ["mood", "font"])),
+            lambda: "(enum %s%s)" % (hexs(r.choice(["mood", 'fo"nt', "sch.ty", "point_size"] if self.hostile else ["mood", "font", "interval_unit"])),
                                      "".join(" " + hexs(self.text()) for _ in range(r.randrange(0 if self.hostile else 1, 4)))),
         ]
         if depth > 0:
